@@ -33,6 +33,7 @@ SimNext ==
      \/ Coin(2)  /\ \E p \in Players : Finish(p) /\ L("finish", p)
      \/ Coin(2)  /\ \E p \in Players : Rebuy(p) /\ L("rebuy", p)
      \/ Coin(3)  /\ \E p \in Players : SitIn(p) /\ L("sitin", p)
+     \/ Coin(8)  /\ \E p \in Players : Leave(p) /\ L("leave", p)
      \/ Coin(4)  /\ \E p \in Players : chips[p] /\ UNCHANGED vars /\ L("addon", p)   \* chips added to a stack that is not empty: no life-cycle effect, lock-free
      \/ Coin(8)  /\ LET l == IF Coin(3) THEN RandomElement(Levels \ {blind}) ELSE RandomElement({1, 2}) IN UpdateBlind(l) /\ L("blind", l)
      \/ Coin(30) /\ status # "pausing" /\ Pause /\ L("pause", 0)
